@@ -41,7 +41,7 @@ func TestC36(t *testing.T) {
 				"ts":   concretise(rnd, vt.Ints(c["ts"]), r, res), "vs": vals, "ks": c["ks"],
 				"q": []int{0, int(maxOff)}})
 		}
-		n := vt.Pick(120, 1500)
+		n := vt.Pick(120, 600)
 		for i := 0; i < n; i++ {
 			res := []int64{res5m, res5m, res1h}[rnd.Intn(3)]
 			size := 1 + rnd.Intn(vt.Pick(2500, 4000))
